@@ -131,6 +131,8 @@ class Harness:
         self.save_log = []          # (need_save before, exception class name or None, denied hit)
         self.denied_hit = False
         self.gw = None
+        self.stop_now = None        # set by the flavour runner: calls stop() from inside a save
+        self.inflight = 0           # save_sensors calls currently running
         self._stack = []
 
     # ---- wrappers installed for the whole case
@@ -157,11 +159,14 @@ class Harness:
         def save_sensors(pers):
             before = pers.need_save
             harness.denied_hit = False
+            harness.inflight += 1
             try:
                 orig_save(pers)
             except BaseException as exc:
                 log.append((before, exc_name(exc), harness.denied_hit))
                 raise
+            finally:
+                harness.inflight -= 1
             log.append((before, None, harness.denied_hit))
 
         for p in (mock.patch.object(P.MySensorsJSONEncoder, "default", default),
@@ -256,6 +261,9 @@ class Harness:
                 patches.append(mock.patch("os.remove", remove))
             else:
                 raise ValueError(plan)
+        elif kind == "stopat":
+            # probe outside the model: stop() is called while this save serialises
+            self.ip.action = (plan[1], lambda: self.stop_now())
         elif kind != "clean":
             raise ValueError(plan)
         return patches
@@ -333,6 +341,12 @@ def _run_sync(case, scratch):
         gw = h.gw
         obs = []
         started = stopped = False
+        flags = {"stopped": False}
+
+        def stop_now():
+            flags["stopped"] = True
+            gw.stop()
+        h.stop_now = stop_now
 
         def armed():
             return any(t.pending for t in FakeTimer.created)
@@ -370,6 +384,7 @@ def _run_sync(case, scratch):
                 for p in reversed(patches):
                     p.stop()
                 h.ip.active = False
+            stopped = stopped or flags["stopped"]
             obs.append(_obs(h, h.outcome(n0), h.ip.calls, armed() or not started, stopped, escaped))
         return obs
     finally:
@@ -395,11 +410,20 @@ def _run_async(case, scratch):
                 gate.remove(fut)
         return result
 
+    real_sleep = asyncio.sleep
     sp = mock.patch("asyncio.sleep", fake_sleep)
     sp.start()
     try:
         h = _setup(case, scratch, "BaseAsyncGateway")
         gw = h.gw
+
+        flags = {"stopped": False}
+
+        def stop_now():
+            # called on the executor thread in the middle of a save: run stop() on the loop
+            flags["stopped"] = True
+            asyncio.run_coroutine_threadsafe(gw.stop(), loop).result(timeout=30)
+        h.stop_now = stop_now
 
         async def main():
             state["reached"] = asyncio.Event()
@@ -450,6 +474,9 @@ def _run_async(case, scratch):
                     for p in reversed(patches):
                         p.stop()
                     h.ip.active = False
+                while h.inflight:                        # an orphaned executor save (stop during a save)
+                    await real_sleep(0.001)
+                stopped = stopped or flags["stopped"]
                 t = state["task"]
                 if escaped is None and t is not None and t.done() and not t.cancelled() and t.exception() is not None:
                     escaped = exc_name(t.exception())        # the exception that ended the task
